@@ -590,6 +590,70 @@ func checkC04(R *Result, sp scenSpec, f fault, o, base *scenOutcome) {
 	}
 }
 
+// the sender fails while ENCODING an input block (columns of different lengths: part of the Data packet is already in the
+// output buffer, nothing of it is flushed) and the server fails the same query with an exception a moment later: the call
+// ends with an error; whatever is left open must be at a packet boundary — the next request starts with its own first byte
+func c04EncodeFailureAndException(c *Ctx) {
+	R := c.R
+	for _, comp := range []ch.Compression{ch.CompressionDisabled, ch.CompressionLZ4} {
+		for _, delay := range []int{0, 3, 10, 25} {
+			sc, err := connectSim(simOpts{compression: comp, readTimeout: 60 * time.Millisecond})
+			if err != nil {
+				R.Note("encode failure scenario: %v", err)
+				return
+			}
+			a, b := new(proto.ColUInt8), new(proto.ColStr)
+			a.Append(1)
+			a.Append(2)
+			b.Append("x")
+			b.Append("y")
+			b.Append("z") // one row more than the first column
+			scols := []srvCol{{"a", "UInt8", genCol(NewRng(1), mustType("UInt8"), 0, genOpts{})}, {"b", "String", genCol(NewRng(1), mustType("String"), 0, genOpts{})}}
+			sc.conn.feed(sc.enc.dataPacket(1, scols, 0))
+			exc := sc.enc.exception([]srvExc{{60, "DB::Exception", "DB::Exception: table is gone", ""}})
+			timer := time.AfterFunc(time.Duration(delay)*time.Millisecond, func() { sc.conn.feed(exc) })
+			ctx, cancel := context.WithTimeout(context.Background(), 3*time.Second)
+			derr := sc.client.Do(ctx, ch.Query{Body: "INSERT INTO t VALUES", Input: proto.Input{{Name: "a", Data: a}, {Name: "b", Data: b}}})
+			cancel()
+			timer.Stop()
+			cs := map[string]any{"scenario": "encode-failure+exception", "compression": int(comp), "exception_after_ms": delay, "error": fmt.Sprint(derr), "closed": sc.client.IsClosed()}
+			R.Case(fmt.Sprintf("encode-failure|%d|%d", comp, delay), true)
+			R.Count("shape:encode-failure+exception")
+			if derr == nil {
+				R.Violate(Violation{Kind: "oracle", Key: "failed-query-reported-ok", What: "an INSERT whose columns have different lengths returned nil", Case: cs})
+				sc.client.Close()
+				continue
+			}
+			if !sc.client.IsClosed() {
+				w0, _, _, _ := sc.conn.snapshot()
+				sc.conn.feed(sc.enc.pong())
+				pctx, pcancel := context.WithTimeout(context.Background(), time.Second)
+				var perr error
+				if p, msg := safely(func() { perr = sc.client.Ping(pctx) }); p {
+					R.Violate(Violation{Kind: "oracle", Key: "next-request-panics", What: "client left open after the failed query; the next Ping panicked: " + msg, Case: cs})
+				}
+				pcancel()
+				w1, _, _, _ := sc.conn.snapshot()
+				post := w1[len(w0):]
+				cs["next_ping_wrote"] = truncHex(post)
+				cs["next_ping_error"] = fmt.Sprint(perr)
+				if !bytes.Equal(post, []byte{4}) {
+					R.Violate(Violation{Kind: "oracle", Key: "stale-bytes-before-next-request", What: fmt.Sprintf("client left open after the failed query; the next Ping wrote %s instead of the single byte 04", truncHex(post)), Case: cs})
+				}
+			}
+			sc.client.Close()
+		}
+	}
+}
+
+func mustType(s string) *TNode {
+	t, err := parseCH(s)
+	if err != nil {
+		panic(err)
+	}
+	return t
+}
+
 var c04Kinds = []string{"select", "insert", "stream"}
 
 // ---- correspondence with Model.Do: the observed outcome must be among the outcomes the model reaches,
@@ -845,6 +909,7 @@ func c04Faults(r *Rng, sp scenSpec, base *scenOutcome, thorough bool) []fault {
 
 func runC04(c *Ctx) {
 	R := c.R
+	defer c04EncodeFailureAndException(c)
 	R.Rule = "scenarios {select with result targets and all handlers, insert with schema exchange, streaming insert} x {plain, LZ4, ZSTD} x {telemetry packets or not}, each first run fault-free against the scripted server (reactive: schema block after the query, EndOfStream after the terminator) to learn stream lengths, callbacks and gates; then re-run on a fresh connection per fault: server stream cut after byte k (all k in thorough, sampled + ends in quick), write error after client byte k, callback j failing, input callback failing, unknown packet code / well-formed unexpected packet at each position, server exception injected at every sender gate (before/after each client write), exception together with a failing write; each under the orderings {free, sender resumes only after the receiver handled the packet, cancel-watch checks before the failing receiver returned} forced through the gates. After Do: closed => further Ping/Do return ErrClosed without touching the connection; open => the next Ping writes exactly 04, the bytes written for the failed query end at a flush boundary, the Ping is answered. non-trivial = a fault was injected; distinct by (scenario, fault)."
 	r := c.Rng
 	rt := 40 * time.Millisecond
@@ -1035,7 +1100,66 @@ func runC10(c *Ctx) {
 		}
 	}
 	c10ChattyServer(c)
+	c10RepeatedHeaders(c)
 	c10Handshake(c)
+}
+
+// an INSERT that learns its columns from the server, and a server that sends the header block several times (a proxy, a
+// cluster) before it goes quiet; the caller cancels.  The call must end although nobody is waiting for the further headers.
+func c10RepeatedHeaders(c *Ctx) {
+	R := c.R
+	for _, headers := range []int{1, 2, 3, 5} {
+		rt := 80 * time.Millisecond
+		sc, err := connectSim(simOpts{readTimeout: rt})
+		if err != nil {
+			R.Note("repeated headers: %v", err)
+			return
+		}
+		a := new(proto.ColUInt8)
+		a.Append(7)
+		scols := []srvCol{{"a", "UInt8", genCol(NewRng(1), mustType("UInt8"), 0, genOpts{})}}
+		for i := 0; i < headers; i++ {
+			sc.conn.feed(sc.enc.dataPacket(1, scols, 0))
+		}
+		ctx, cancel := context.WithCancel(context.Background())
+		rounds := 0
+		q := ch.Query{Body: "INSERT INTO t VALUES", Input: proto.Input{{Name: "a", Data: a}}, OnInput: func(ctx context.Context) error {
+			rounds++
+			if rounds > 3 {
+				<-ctx.Done() // the stream stalls until the caller gives up
+				return ctx.Err()
+			}
+			return nil
+		}}
+		t0 := time.Now()
+		time.AfterFunc(40*time.Millisecond, cancel)
+		done := make(chan error, 1)
+		go func() { done <- sc.client.Do(ctx, q) }()
+		var derr error
+		hung := false
+		select {
+		case derr = <-done:
+		case <-time.After(rt + 2500*time.Millisecond):
+			hung = true
+		}
+		el := time.Since(t0)
+		_, closed, closeCalls, _ := sc.conn.snapshot()
+		cs := map[string]any{"scenario": "insert with inferred columns, repeated header blocks", "header_blocks": headers, "read_timeout_ms": rt.Milliseconds(), "error": fmt.Sprint(derr), "elapsed_ms": el.Milliseconds()}
+		R.Case(fmt.Sprintf("repeated-headers|%d", headers), true)
+		R.Count("shape:repeated-header-cancel")
+		switch {
+		case hung:
+			R.Violate(Violation{Kind: "oracle", Key: "cancelled-do-does-not-return", What: fmt.Sprintf("the server sent %d header blocks and went quiet; Do did not return within %v of the cancellation", headers, el), Case: cs})
+			sc.conn.Close()
+			<-done
+		case !errors.Is(derr, context.Canceled):
+			R.Violate(Violation{Kind: "oracle", Key: "cancel-error-mismatch", What: fmt.Sprintf("Do returned %v, which does not match context.Canceled", derr), Case: cs})
+		case !closed || closeCalls < 1:
+			R.Violate(Violation{Kind: "oracle", Key: "cancel-leaves-connection-open", What: fmt.Sprintf("after cancellation closed=%v, Conn.Close calls=%d", closed, closeCalls), Case: cs})
+		}
+		cancel()
+		sc.client.Close()
+	}
 }
 
 // a server that never goes quiet: Progress packets keep arriving with gaps far below the read timeout, so no read ever times
